@@ -18,7 +18,7 @@ DateTimeTags(e) ==
 CalTags(e) ==
   LET c == e.cal   \* <<y, m, d, h, mi, s>>
       want == <<c[1] - 1970, c[2] - 1, c[3] - 1, c[4], c[5], (c[6] \div 2) * 2>>
-  IN IF ~e.ok THEN V("Timestamp", "from_calendar refused a timestamp in 1980..2107")
+  IN IF ~e.ok THEN (IF RealDate(c[1], c[2], c[3]) THEN V("Timestamp", "from_calendar refused a timestamp in 1980..2107") ELSE {})   \* (31 April may be refused)
      ELSE (IF e.date # EncDate(c[1], c[2], c[3]) \/ e.time # EncTime(c[4], c[5], c[6]) THEN V("Timestamp", "calendar timestamp encoded to other words than the FAT layout") ELSE {})
        \cup (IF e.back # want THEN V("Timestamp", "encode-then-decode is not the two-second rounding") ELSE {})
 
